@@ -3,6 +3,7 @@ package rockredis
 import (
 	"encoding/binary"
 	"errors"
+	"math"
 	"strconv"
 
 	"github.com/youzan/ZanRedisDB/common"
@@ -428,6 +429,10 @@ func (self *HsetIndex) SearchRec(db *RockDB, cond *IndexCondition, countOnly boo
 				return n, nil, err
 			}
 			if !cond.IncludeStart {
+				if sn == math.MaxInt64 {
+					// nothing is greater than the largest int64 (sn++ would wrap around)
+					return n, pkList, nil
+				}
 				sn++
 			}
 			min, err = encodeHsetIndexNumberStartKey(self.Table, self.Name, sn)
@@ -441,6 +446,10 @@ func (self *HsetIndex) SearchRec(db *RockDB, cond *IndexCondition, countOnly boo
 				return n, nil, err
 			}
 			if !cond.IncludeEnd {
+				if en == math.MinInt64 {
+					// nothing is smaller than the smallest int64 (en-- would wrap around)
+					return n, pkList, nil
+				}
 				en--
 			}
 			max, err = encodeHsetIndexNumberStopKey(self.Table, self.Name, en)
